@@ -590,6 +590,47 @@ def run(ctx: Ctx) -> int:
         "guarded: texts whose last line ends inside `[` (e.g. str() of a circuit ending in X[S[T] 0 prints X[T 0) are not "
         "passed to stim 1.16 (its parser does not terminate); counted under 'guard'")
 
+    # ---- printing is a function of the CURRENT circuit: str()/repr() interleaved with every mutating method on one object
+    #      (pop, pop(i), +=, *=, append_from_stim_program_text); after each step str(c) must equal the text of a fresh circuit with the
+    #      same content, and must read back to c
+    hist_rng = ctx.np_rng()
+    pool = [(t, c) for t, c in accepted if len(c) >= 2][: (60 if quick else 600)]
+    for text, c0 in pool:
+        try:
+            c = c0.copy()
+        except Exception:
+            continue
+        ops_done = []
+        bad_h = None
+        for step in range(4):
+            _ = str(c), repr(c)          # print before the mutation
+            op = ["pop", "pop0", "iadd", "imul", "append"][int(hist_rng.integers(0, 5))]
+            try:
+                if op == "pop" and len(c) > 1:
+                    c.pop()
+                elif op == "pop0" and len(c) > 1:
+                    c.pop(0)
+                elif op == "iadd":
+                    c += tsim.Circuit("T 0\nR_Z(0.25) 1")
+                elif op == "imul":
+                    c *= 2
+                elif op == "append":
+                    c.append_from_stim_program_text("U3(0.5, 0.25, -0.125) 0\nH 1")
+                else:
+                    continue
+            except Exception:
+                break
+            ops_done.append(op)
+            fresh = tsim.Circuit.from_stim_program(c._stim_circ.copy())
+            ctx.count(("history", text, tuple(ops_done)), nontrivial=True, bucket="print-after-mutation")
+            if str(c) != str(fresh) or repr(c) != repr(fresh):
+                bad_h = f"after str(c); {'; '.join(ops_done)}: str(c) = {str(c)!r} but the circuit now is {str(fresh)!r}"
+                break
+        if bad_h:
+            ctx.violation("print-after-mutation:" + ops_done[-1], f"str()/repr() do not show the current circuit: {bad_h}",
+                          {"kind": "history", "text": text, "ops": ops_done})
+            break
+
     # ---- append_from_stim_program_text / from_file use the same rewriting
     for text, c in accepted[: (40 if quick else 400)]:
         ctx.count(("append", text), bucket="append/from_file")
@@ -846,6 +887,23 @@ def replay(ctx: Ctx, obj) -> int:
     if text is None:
         return 1
     kind = r.get("kind", "ctor")
+    if kind == "history":
+        c = tsim.Circuit(text)
+        for op in r.get("ops", []):
+            _ = str(c), repr(c)
+            if op == "pop":
+                c.pop()
+            elif op == "pop0":
+                c.pop(0)
+            elif op == "iadd":
+                c += tsim.Circuit("T 0\nR_Z(0.25) 1")
+            elif op == "imul":
+                c *= 2
+            elif op == "append":
+                c.append_from_stim_program_text("U3(0.5, 0.25, -0.125) 0\nH 1")
+        fresh = tsim.Circuit.from_stim_program(c._stim_circ.copy())
+        print("str(c):", repr(str(c)), "current circuit:", repr(str(fresh)))
+        return 0 if str(c) == str(fresh) and repr(c) == repr(fresh) else 1
     if kind == "expand":
         got = s2s(text)
         print("shorthand_to_stim:", repr(got), "wanted:", repr(r.get("want")))
